@@ -73,10 +73,11 @@ SynErr(e, m2, errp) ==
 \* the reader state handed to the emit layer: offset as the machine counted it
 \* minus what emit adds itself is irrelevant - Emit* derive the offset from the
 \* span, Inv_Offset compares it with the machine's count.
-Step ==
+\* one fill_buf call that returns the piece ending at offset d, and what the helper does with it
+StepD(d) ==
     /\ pc \notin {"idle", "stop"}
-    /\ \E d \in Deliveries :
-       LET lo == cons
+    /\ d \in Deliveries
+    /\ LET lo == cons
            hi == d
            eof == (lo = hi)
        IN
@@ -153,6 +154,8 @@ Step ==
                     Return(r, f.hit + 1, d, m2, [h EXCEPT !.buf = b2, !.read = r2])
                  ELSE Goto("bang", hi, d, moff,
                            [h EXCEPT !.buf = h.buf \o Slice(inp, lo, hi), !.read = h.read + (hi - lo), !.bal = f.bal])
+
+Step == \E d \in Deliveries : StepD(d)
 
 \* ErrorKind::Interrupted (every fill_buf site loops) and Poll::Pending: stutter
 Stutter ==
